@@ -426,7 +426,7 @@ func (x *Exec) applyExtern(instr ssa.Value, name string, rs *types.Tuple, args [
 	}
 	if ex.MayPanic {
 		goal := tFalse
-		if hasDeferredRecover(x.fn) {
+		if hasDeferredRecover(x.fn, x.curCall) {
 			goal = tTrue
 		}
 		x.nsafety++
@@ -706,12 +706,16 @@ func (x *Exec) runDefers(st *State, pc Term) {
 	}
 }
 
-// hasDeferredRecover: the entry block defers a function (named or literal) whose body calls the builtin recover directly
-func hasDeferredRecover(fn *ssa.Function) bool {
+// hasDeferredRecover: the entry block defers, BEFORE the given call, a function (named or literal) whose body calls the
+// builtin recover directly
+func hasDeferredRecover(fn *ssa.Function, before *ssa.CallCommon) bool {
 	if fn == nil || len(fn.Blocks) == 0 {
 		return false
 	}
 	for _, ins := range fn.Blocks[0].Instrs {
+		if ci, ok := ins.(ssa.CallInstruction); ok && before != nil && ci.Common() == before {
+			return false // the call is reached before any recover was installed
+		}
 		d, ok := ins.(*ssa.Defer)
 		if !ok {
 			continue
